@@ -8,6 +8,7 @@ import (
 
 //verif:harness VerifC03_Truthy quick.maxpaths=20000 thorough.maxpaths=100000 timeout=1200
 //verif:harness VerifC03_Chain quick.maxpaths=60000 thorough.maxpaths=400000 timeout=2400
+//verif:harness VerifC03_Assigned quick.maxpaths=20000 thorough.maxpaths=100000 timeout=1800
 //verif:harness VerifC03_Reuse quick.maxpaths=40000 thorough.maxpaths=200000 timeout=2400
 
 type zzC03Struct struct{ A int }
@@ -358,4 +359,52 @@ func VerifC03_Reuse() {
 		zzAssert(strings.Contains(out, `class="neg"`) == (v < 1), "C03.reuse.class-object")
 		zzAssert(strings.Contains(out, "<ul>"+wantLoop+"</ul>"), "C03.reuse.loop-over-mixed-items")
 	}
+}
+
+// VerifC03_Assigned: a variable that is (re)assigned between two chains of
+// the same sibling list - by <template :name="..."> or by the taken branch of
+// a <template v-if ... :name="..."> - has its current value in every chain and
+// in v-show, bound attributes and {{ }} alike.
+func VerifC03_Assigned() {
+	r0 := zzBool("r0")
+	r1 := zzBool("r1")
+	how := zzChoice("how", 3) // plain template assignment, assignment on a chain branch, none
+	lit := func(b bool) string {
+		if b {
+			return "true"
+		}
+		return "false"
+	}
+	assign := ""
+	cur := r0
+	taken := false
+	switch how {
+	case 0:
+		assign = `<template :ready="` + lit(r1) + `"></template>`
+		cur = r1
+	case 1:
+		assign = `<template v-if="go" :ready="` + lit(r1) + `"><u>set</u></template><template v-else><u>kept</u></template>`
+		taken = zzBool("go")
+		if taken {
+			cur = r1
+		}
+	}
+	placement := zzChoice("placement", 2)
+	body := `<p v-if="ready">early</p><p v-else>notyet</p>` + assign +
+		`<q v-if="ready">READY</q><q v-else-if="!ready">WAITING</q><q v-else>NEVER</q>` +
+		`<i v-show="ready">shown</i><b :data-r="ready">b</b><s>{{ ready }}</s>`
+	if placement == 1 {
+		body = `<div>` + body + `</div>`
+	}
+	data := map[string]any{"ready": r0, "go": taken}
+	out, err := zzRenderVia(zzEntry(), nil, nil, body, data)
+	zzNote("template", body)
+	zzNote("out", out)
+	zzAssert(err == nil, "C03.assigned.render-error")
+	zzAssert(strings.Contains(out, "early") == r0, "C03.assigned.first-chain")
+	zzAssert(strings.Contains(out, "READY") == cur, "C03.assigned.later-chain-sees-current-value")
+	zzAssert(strings.Contains(out, "WAITING") == !cur, "C03.assigned.later-chain-else-if")
+	zzAssert(!strings.Contains(out, "NEVER"), "C03.assigned.later-chain-else")
+	zzAssert(strings.Contains(out, "display:none") == !cur, "C03.assigned.v-show")
+	zzAssert(strings.Contains(out, "data-r=") == cur, "C03.assigned.bound-attribute")
 }
